@@ -230,6 +230,7 @@ class Runner:
             if cls in seen:
                 continue
             seen.add(cls)
+            log("shrinking unexplained failure:", r.lang, r.verdict[:300])
             line, stext = self.shrink(r)
             if c.match_known(stext):
                 continue
